@@ -24,6 +24,19 @@ PROPS = {
         ],
         'partial': '',
     },
+    'C13': {
+        'abi_module': 'AbiC13',
+        'stages': quick_thorough(
+            [{'name': 'enum', 'sub': 'c13', 'n': 3, 'args': ['enum'], 'judge_entry': 'c13_judge', 'no_escalate': True},
+             {'name': 'random', 'sub': 'c13', 'n': 400, 'args': ['random'], 'judge_entry': 'c13_judge'}],
+            [{'name': 'enum', 'sub': 'c13', 'n': 4, 'args': ['enum'], 'judge_entry': 'c13_judge', 'no_escalate': True, 'timeout': 3000},
+             {'name': 'random', 'sub': 'c13', 'n': 5000, 'args': ['random'], 'judge_entry': 'c13_judge'}]),
+        'assumptions': [
+            "procfs-core parses each /proc/<pid>/maps line into (range, perms, offset, classified path); that parser is outside the model",
+            "well-formedness hypothesis of C13_partition: lines ascending, non-empty, non-overlapping (what the kernel reports)",
+        ],
+        'partial': 'the executable predicate c13_holds_b applied to implementation outputs is validated against the model on every run; its soundness w.r.t. the theorems is not yet a Coq lemma',
+    },
 }
 
 def judge(pid, cfg, case, model_out, impl_out):
